@@ -1,5 +1,6 @@
 import EupsModel.Lemmas.RecordReloc
 import EupsModel.Lemmas.RecordText
+import EupsModel.Lemmas.RecordEndToEnd
 /-! C16 — database records round-trip and stacks are relocatable.  Property theorems only.
 Model and the specification-side definitions used in the statements (`DirPl`, `TabPl`, `DirPl.at`, `TabPl.at`,
 `declaredProd`, `canonInfo`, `PlaceOK`, `DeclEx`, `ReadEx`, `readBack`): `Model/Record.lean`; helper lemmas:
@@ -134,5 +135,43 @@ example : GoodVRec exampleVRec := by
     all_goals first
       | exact Or.inl rfl
       | exact Or.inr ⟨_, rfl, c _ (by decide) (by decide) (by decide) (by decide) (by decide) (by decide) (by decide)⟩
+
+/-! ## End to end -/
+
+/-- **Relocation through the text of the record**: `Database.declare` into an empty version file with the stack at
+`root` yields a record `vr`; `VersionFile.write` prints it; `VersionFile._read` of that text (names preset as
+`Database.findProduct` does) gives `vr` back; `makeProduct` for a reader whose stack is at `root'` reports the
+relocated directory and table file.  Hypotheses: `PlaceOK` (the placement is one of those listed), `TextOK`
+(everything written into the record is clean text: name, version, flavor, the stamps, every path segment; the
+version is not a `LOCAL:` one; a relative path is not literally `none`/`???`/`(none)`), `DeclEx`, `ReadEx`. -/
+theorem C16_relocate_via_text (ex ex' : Path → Bool) (root root' : List Str) (name version flavor who now : Str)
+    (d : DirPl) (t : TabPl) (hp : PlaceOK root name version flavor d t) (hroot' : SegsOK root')
+    (ht : TextOK name version flavor who now d t)
+    (hd : DeclEx ex root name version flavor d t) (hr : ReadEx ex' root' name version flavor d t) :
+    ∃ vr text,
+      declareRec ex who now { name := some name, version := some version, flavors := [] }
+        (declaredProd root name version flavor d t) = .ok vr ∧
+      printVersion vr = .ok (some text) ∧
+      parseVersion (some name) (some version) text = .ok vr ∧
+      (makeProduct ex' vr flavor (absP (root' ++ [sUpsDb]))).map (fun p => (p.dir, p.table))
+        = .ok (d.at root', t.at root' name version flavor d) :=
+  relocate_via_text ex ex' root root' name version flavor who now d t hp hroot' ht hd hr
+
+/-- Non-vacuity of `TextOK`: product `a`, version `1`, flavor `L`, declared by `r` at `T1`, installed in `L/a/1`
+inside the stack, table file interned. -/
+example : TextOK [97] [49] [76] [114] [84, 49] (.inside [[76], [97], [49]]) .interned := by
+  have c : ∀ s : Str, s ≠ [] → 35 ∉ s → 10 ∉ s → 13 ∉ s → 34 ∉ s → (∀ c, s.head? = some c → Str.isSpace c = false) →
+      (∀ c, s.getLast? = some c → Str.isSpace c = false) → Clean s := fun s a b c d e f g => ⟨a, b, c, d, e, f, g⟩
+  have cc : ∀ s : Str, s ≠ [] → 35 ∉ s → 10 ∉ s → 13 ∉ s → 34 ∉ s → (∀ c, s.head? = some c → Str.isSpace c = false) →
+      (∀ c, s.getLast? = some c → Str.isSpace c = false) → 47 ∉ s → SegC s := fun s a b c' d e f g h => ⟨c s a b c' d e f g, h⟩
+  refine ⟨c _ (by decide) (by decide) (by decide) (by decide) (by decide) (by decide) (by decide),
+    c _ (by decide) (by decide) (by decide) (by decide) (by decide) (by decide) (by decide), by decide,
+    ⟨c _ (by decide) (by decide) (by decide) (by decide) (by decide) (by decide) (by decide), by decide⟩,
+    c _ (by decide) (by decide) (by decide) (by decide) (by decide) (by decide) (by decide),
+    c _ (by decide) (by decide) (by decide) (by decide) (by decide) (by decide) (by decide), ⟨?_, by decide⟩, trivial⟩
+  intro s hs
+  simp only [List.mem_cons, List.not_mem_nil, or_false] at hs
+  rcases hs with rfl | rfl | rfl <;>
+    exact cc _ (by decide) (by decide) (by decide) (by decide) (by decide) (by decide) (by decide) (by decide)
 
 end EupsModel.C16
